@@ -179,8 +179,20 @@ def _note_loop_effects(eng, tag, n_eff, declared=()):
         return
     if len(eng.effects) > n_eff:
         if not hasattr(eng.run, 'loop_emits'):
-            eng.run.loop_emits = set()
-        eng.run.loop_emits.add(tag)
+            eng.run.loop_emits = {}
+        eng.run.loop_emits.setdefault(tag, set()).update(nme for nme, _ in eng.effects[n_eff:])
+
+
+def _record_loop_effects(eng, loop_key, eff_mark):
+    """(kept for callers) names of the effects one arbitrary iteration emitted: see _note_loop_effects"""
+
+
+def note_effect_query(eng, names):
+    """(kept for callers) effect predicates after loops are handled by bi_no_effect / _effects_known"""
+
+
+def check_effect_queries(runner):
+    return None
 
 
 def symbolic_for(eng, s, fr, it):
@@ -192,6 +204,7 @@ def symbolic_for(eng, s, fr, it):
         raise Unsupported('loop outside exec mode')
     check_literal_mutation(eng, s, fr)
     tag = f'loop{k_ord}/{eng.cur_fn}'
+    loop_key = f'loop{k_ord}@{fr.fi.qualname}'
     entry_heap = eng.heap.snapshot()
     entry_vars = dict(fr.vars)
     loop_old = OldNS(entry_vars, entry_heap)
@@ -205,7 +218,7 @@ def symbolic_for(eng, s, fr, it):
         it = eng.pin(it, entry_heap)
     if is_list:
         n = eng.seq_len_term(it)
-        ghost0 = {'k': 0, 'loop_old': loop_old, 'seq': it}
+        ghost0 = {'k': 0, 'loop_old': loop_old, 'seq': it, 'loop_items': it}
     else:
         ety = eng.elem_type(it) if not (isinstance(it, ValuesView) and it.what == 'items') else it.d.kty
         so = sort_of(it.d.kty if isinstance(it, ValuesView) else ety)
@@ -223,7 +236,7 @@ def symbolic_for(eng, s, fr, it):
     if is_list:
         k = eng.run.fresh('k', I)
         eng.run.assume(z3.And(0 <= k, k <= n))
-        ghost = {'k': SV(k, INT), 'loop_old': loop_old, 'seq': it}
+        ghost = {'k': SV(k, INT), 'loop_old': loop_old, 'seq': it, 'loop_items': it}
         eng.run.assume(_clause(eng, con, spec['inv'], fr, ghost))
         more = k < n
     else:
@@ -242,7 +255,7 @@ def symbolic_for(eng, s, fr, it):
     if eng.run.decide(more):
         if is_list:
             elem = eng.pin(eng.seq_get(it, k), None)     # the element itself lives in the current heap
-            ghost_next = {'k': SV(k + 1, INT), 'loop_old': loop_old, 'seq': it}
+            ghost_next = {'k': SV(k + 1, INT), 'loop_old': loop_old, 'seq': it, 'loop_items': it}
         else:
             e = eng.run.fresh('elem', so)
             eng.run.assume(z3.And(coll_chi[e], z3.Not(seen[e])))
@@ -259,6 +272,7 @@ def symbolic_for(eng, s, fr, it):
         # iter_old = locals/heap at the start of that iteration, effect vocabulary relative to that iteration
         iter_old = OldNS(dict(fr.vars), eng.heap.snapshot())
         n_eff = len(eng.effects)
+        eff_mark = n_eff
         try:
             try:
                 eng.exec_block(s.body, fr)
@@ -270,23 +284,30 @@ def symbolic_for(eng, s, fr, it):
         except ContinueEx:
             pass
         _note_loop_effects(eng, tag, n_eff, declared_effects(con, k_ord))
-        if 'iter' in spec:
+        # per-iteration postconditions, effect predicates relative to the start of this iteration:
+        #   loop<K>_iter        sees k = number of elements done INCLUDING this one (element = seq[k - 1])
+        #   loop<K>_iter_<name> sees k = index of this element (element = loop_items[k])
+        iter_clauses = [(spec[w], ghost_next if w == 'iter' else ghost) for w in sorted(spec) if w == 'iter' or w.startswith('iter_')]
+        if iter_clauses:
             saved_base = eng.effects_base
             eng.effects_base = eng.effects[:n_eff]
             try:
-                it_ghost = dict(ghost_next)
-                it_ghost['iter_old'] = iter_old
-                eng.run.oblige(f'loop-iter:{tag}', 'inv', _clause(eng, con, spec['iter'], fr, it_ghost), s.lineno)
+                for cl, gh in iter_clauses:
+                    it_ghost = dict(gh)
+                    it_ghost['iter_old'] = iter_old
+                    eng.run.oblige(f'loop-iter:{cl.name}/{tag}' if cl.name.split('_', 1)[1] != 'iter' else f'loop-iter:{tag}', 'inv',
+                                   _clause(eng, con, cl, fr, it_ghost), s.lineno)
             finally:
                 eng.effects_base = saved_base
         eng.run.oblige(f'loop-preserve:{tag}', 'inv', _clause(eng, con, spec['inv'], fr, ghost_next), s.lineno)
         _body_frame(eng, mods, head_heap, mark, tag, s.lineno)
         raise PathEnd()
     # 3. exit: invariant with everything processed.  The python-level effect log of this path does not contain what
-    # the iterations emitted: when some explored iteration emitted an effect (the iteration paths of a loop are explored
-    # before its exit path: depth-first, `more` branch first), later effect queries are refused (see bi_no_effect)
-    if tag in getattr(eng.run, 'loop_emits', ()):
+    # the iterations emitted (the iteration paths of a loop are explored before its exit path: depth-first, `more`
+    # branch first): later effect queries about these effect names are unknown / refused (see bi_no_effect)
+    if tag in getattr(eng.run, 'loop_emits', {}):
         eng.effects_unknown = tag
+        eng.effects_unknown_names = getattr(eng, 'effects_unknown_names', set()) | eng.run.loop_emits[tag]
     if not is_list:
         eng.run.assume(z3.ForAll([x], seen[x] == coll_chi[x]))
     # the loop variable keeps the last element (or its previous binding when the collection is empty)
@@ -349,22 +370,28 @@ def symbolic_while(eng, s, fr):
     c = eng.truthy(eng.ev(s.test, fr))
     if not isinstance(c, bool):
         c = eng.run.decide(c)
+    loop_key = f'loop{k_ord}@{fr.fi.qualname}'
     if c:
+        eff_mark = len(eng.effects)
         try:
             try:
                 eng.exec_block(s.body, fr)
             finally:
                 check_loop_effects(eng, con, k_ord, fx_start, tag, s.lineno)
         except BreakEx:
+            _record_loop_effects(eng, loop_key, eff_mark)
+            eng.loops_passed.append((loop_key, eff_mark))
             return
         except ContinueEx:
             pass
+        _record_loop_effects(eng, loop_key, eff_mark)
         eng.run.oblige(f'loop-preserve:{tag}', 'inv', _clause(eng, con, spec['inv'], fr, ghost), s.lineno)
         if measure0 is not None:
             m1 = eng.eval_term(con, spec['decreases'], fr, ghost)
             eng.run.oblige(f'term:{tag}', 'term', z3.And(measure0 >= 0, m1 < measure0), s.lineno)
         _body_frame(eng, mods, head_heap, mark, tag, s.lineno)
         raise PathEnd()
+    eng.loops_passed.append((loop_key, len(eng.effects)))
     eng.exec_block(s.orelse, fr)
 
 
